@@ -1,0 +1,25 @@
+// SPDX-FileCopyrightText: 2022-present Intel Corporation
+//
+// SPDX-License-Identifier: Apache-2.0
+
+//go:build verif
+
+// Verification hooks: constructors and wrappers used only by the external verification harness
+// (built with -tags verif).  Nothing here changes the behaviour of the package.
+
+package mastership
+
+import (
+	"github.com/onosproject/onos-config/pkg/store/topo"
+	"github.com/onosproject/onos-config/pkg/store/v2/configuration"
+)
+
+// NewReconcilerForVerif returns the mastership reconciler so that single Reconcile steps can be driven
+func NewReconcilerForVerif(topo topo.Store, configurations configuration.Store) *Reconciler {
+	return &Reconciler{topo: topo, configurations: configurations}
+}
+
+// NewWatchersForVerif returns the watchers of the mastership controller
+func NewWatchersForVerif(topo topo.Store, configurations configuration.Store) (*TopoWatcher, *ConfigurationStoreWatcher) {
+	return &TopoWatcher{topo: topo}, &ConfigurationStoreWatcher{configurations: configurations}
+}
